@@ -3,8 +3,10 @@ package props
 import (
 	"fmt"
 	"go/ast"
+	"go/constant"
 	"go/token"
 	"go/types"
+	"sort"
 	"strings"
 
 	"verif/exprlint/core"
@@ -411,6 +413,7 @@ func runC13(p *core.Program, r *core.Report) {
 	r.Floor("R13.1", 25)
 	r.Floor("R13.2", 19)
 	recorderRules(p, r, "", "R13.5")
+	lineBreakRule(p, r)
 	r.Floor("R13.5", 4)
 	r.Floor("R13.7", 19)
 	// R13.8 (= C12 R12.3): every location a token, node or error carries comes from the lexer's
@@ -458,8 +461,109 @@ func stripAmp(e ast.Expr) ast.Expr {
 	return e
 }
 
+// lineBreakRule (R13.9): two components decide what "line N" is — the lexer's stepping
+// primitive, which starts a new line when it steps over certain characters, and the source's
+// line table, from which the snippet of a reported line is cut. A reported (line, column) and its
+// snippet belong together only if both break lines at the same characters.
+func lineBreakRule(p *core.Program, r *core.Report) {
+	breaks := func(rel string, fd *ast.FuncDecl) map[rune]bool {
+		info := p.Pkg(rel).TypesInfo
+		out := map[rune]bool{}
+		ast.Inspect(fd.Body, func(n ast.Node) bool {
+			e, ok := n.(ast.Expr)
+			if !ok {
+				return true
+			}
+			tv, ok := info.Types[e]
+			if !ok || tv.Value == nil {
+				return true
+			}
+			switch tv.Value.Kind() {
+			case constant.String:
+				for _, c := range constant.StringVal(tv.Value) {
+					if c == '\n' || c == '\r' || c == '\u2028' || c == '\u2029' || c == '\f' || c == '\v' {
+						out[c] = true
+					}
+				}
+			case constant.Int:
+				if _, isLit := e.(*ast.BasicLit); isLit {
+					if v, ok := constant.Int64Val(tv.Value); ok && (v == '\n' || v == '\r' || v == 0x2028 || v == 0x2029) && e.(*ast.BasicLit).Kind == token.CHAR {
+						out[rune(v)] = true
+					}
+				}
+			}
+			return true
+		})
+		return out
+	}
+	// the lexer's stepping primitive: the method that decodes runes
+	var stepper *ast.FuncDecl
+	linfo := p.Pkg("parser/lexer").TypesInfo
+	for _, fd := range p.FuncDecls("parser/lexer") {
+		if fd.Body == nil || fd.Recv == nil {
+			continue
+		}
+		ast.Inspect(fd.Body, func(n ast.Node) bool {
+			if c, ok := n.(*ast.CallExpr); ok {
+				if fn := eng.CalleeOf(linfo, c); fn != nil && fn.Pkg() != nil && fn.Pkg().Path() == "unicode/utf8" && strings.HasPrefix(fn.Name(), "DecodeRune") {
+					stepper = fd
+				}
+			}
+			return true
+		})
+	}
+	// the source's line table builder: the method of package file that assigns the offsets field
+	var table *ast.FuncDecl
+	finfo := p.Pkg("file").TypesInfo
+	for _, fd := range p.FuncDecls("file") {
+		if fd.Body == nil || fd.Recv == nil {
+			continue
+		}
+		ast.Inspect(fd.Body, func(n ast.Node) bool {
+			as, ok := n.(*ast.AssignStmt)
+			if !ok {
+				return true
+			}
+			for _, l := range as.Lhs {
+				if sel, ok := l.(*ast.SelectorExpr); ok {
+					if t := finfo.TypeOf(sel); t != nil {
+						if sl, ok := t.(*types.Slice); ok {
+							if b, ok := sl.Elem().(*types.Basic); ok && b.Info()&types.IsInteger != 0 {
+								table = fd
+							}
+						}
+					}
+				}
+			}
+			return true
+		})
+	}
+	if stepper == nil || table == nil {
+		r.Unk("R13.9", "line breaks", "", fmt.Sprintf("lexer stepping primitive found: %v, source line table builder found: %v", stepper != nil, table != nil))
+		return
+	}
+	lb, tb := breaks("parser/lexer", stepper), breaks("file", table)
+	str := func(m map[rune]bool) string {
+		var s []string
+		for c := range m {
+			s = append(s, fmt.Sprintf("%q", c))
+		}
+		sort.Strings(s)
+		return strings.Join(s, " ")
+	}
+	same := len(lb) == len(tb) && len(lb) > 0
+	for c := range lb {
+		if !tb[c] {
+			same = false
+		}
+	}
+	r.Check(same, "R13.9", "lexer and source line table break lines at the same characters", p.Pos(table.Pos()), "both at "+str(lb),
+		"the lexer ("+core.FuncName("parser/lexer", stepper)+") starts a new line at "+str(lb)+", the source's line table ("+core.FuncName("file", table)+") at "+str(tb)+": after a character only one of them treats as a line break, the reported line number and the snippet shown for it are different lines")
+}
+
 func c13Controls() []core.Mutant {
 	return []core.Mutant{
+		{Name: "source line table also breaks at carriage returns", File: "file/source.go", Old: "\tlines := strings.Split(string(s.contents), \"\\n\")", New: "\tlines := strings.Split(strings.ReplaceAll(string(s.contents), \"\\r\", \"\\n\"), \"\\n\")", Rule: "R13.9", Construct: "break lines at the same characters"},
 		{Name: "checker returns its error unbound", File: "checker/checker.go", Old: "return t, v.err.Bind(tree.Source)", New: "return t, v.err", Rule: "R13.5", Construct: "checker.Check"},
 		{Name: "Compile passes the optimizer's error on unbound", File: "expr.go", Old: "return nil, fileError.Bind(tree.Source)", New: "return nil, fileError", Rule: "R13.5", Construct: "optimizer.Optimize"},
 		{Name: "conditional node loses its location", File: "parser/parser.go", Old: "\t\t\tExp2: expr2,\n\t\t}\n\t\tnode.SetLocation(token.Location)\n", New: "\t\t\tExp2: expr2,\n\t\t}\n\t\t_ = token\n", Rule: "R13.1", Construct: "ConditionalNode"},
